@@ -237,9 +237,11 @@ def r6_std_wrappers(text):
     def extend(recv, a):
         if len(a) != 1:
             return None
+        # a receiver that is itself a `&mut Vec<u8>` binding (out / $out) is reborrowed, a place is borrowed
+        target = f'&mut *{recv}' if recv in ('out', '$out') else f'&mut {recv}'
         if a[0].startswith('&*'):
-            return f'vec_extend_slice(&mut {recv}, {a[0]})'
-        return f'vec_extend_array(&mut {recv}, {a[0]})'
+            return f'vec_extend_slice({target}, {a[0]})'
+        return f'vec_extend_array({target}, {a[0]})'
     text, n = _method_call_rewrite(text, 'extend', extend)
     total += n
     text, n = _call_rewrite(text, r'Vec::from', lambda p, a: f'vec_from_box({a[0]})' if len(a) == 1 else None)
@@ -249,6 +251,19 @@ def r6_std_wrappers(text):
     total += n
     text, n = re.subn(r'\b([\w\.]+)\[([^\[\]]+?)\.\.([^\[\]]+?)\]\s*\.try_into\(\)\s*\.expect\(\s*"[^"]*"\s*\)',
                       r'vec_to_array(&\1, \2, \3)', text)
+    total += n
+    text, n = re.subn(r'<\[u8;\s*([^\]]+?)\s*\]>::try_from\(\s*(\w+)\s*\)\s*\.expect\(\s*"[^"]*"\s*\)',
+                      r'array_from_slice::<{ \1 }>(\2)', text)
+    total += n
+
+    def get_range(recv, a):
+        if len(a) != 1 or '..' not in a[0]:
+            return None
+        lo, hi = a[0].split('..', 1)
+        if lo.strip() == '' or hi.strip() == '':
+            return None
+        return f'slice_get_range(&*{recv}, {lo.strip()}, {hi.strip()})'
+    text, n = _method_call_rewrite(text, 'get', get_range)
     total += n
     text, n = _call_rewrite(text, r'min', lambda p, a: f'min_usize({a[0]}, {a[1]})' if len(a) == 2 else None)
     total += n
@@ -271,6 +286,9 @@ def r11_visibility(text, item_kind=None):
     # pub(super)/pub(crate) -> pub
     text, k = re.subn(r'\bpub\s*\(\s*(?:super|crate)\s*\)', 'pub', text)
     n += k
+    if item_kind in ('struct', 'enum', 'trait', 'type') and not re.match(r'\s*pub\b', text):
+        text = 'pub ' + text.lstrip()
+        n += 1
     if item_kind == 'struct':
         # all fields pub (Verus: private fields cannot appear in contracts of pub fns)
         masked = rsscan.mask(text)
@@ -331,6 +349,19 @@ def r12_for_ref_pattern(text):
         n += 1
 
 
+def r13_wildcard_param(text):
+    """`fn f(_: T)` -> `fn f(_p0: T)` (Verus wants identifier patterns for parameters)."""
+    masked = rsscan.mask(text)
+    m = re.search(r'\bfn\s+\w+[^(]*\(', masked)
+    if not m:
+        return text, 0
+    o = m.end() - 1
+    c = rsscan.match_close(masked, o)
+    params = text[o:c]
+    new, n = re.subn(r'([(,]\s*)_(\s*:)', lambda mm: mm.group(1) + '_p' + mm.group(2), params)
+    return text[:o] + new + text[c:], n
+
+
 RULES = [
     ('R1', r1_attrs),
     ('R2', r2_tracing),
@@ -341,6 +372,7 @@ RULES = [
     ('R7', r7_box_slice),
     ('R11', r11_visibility),
     ('R12', r12_for_ref_pattern),
+    ('R13', r13_wildcard_param),
 ]
 
 
